@@ -1,0 +1,41 @@
+//go:build verif
+
+package fasthttp
+
+// Contracts for bytesconv.go, checked by /verif/gocv (comment-only; compiled to nothing).
+//
+// "Value fits in an int" is stated as "no prefix of the digit string has a value above MaxInt";
+// the two are equal because the value of a digit string never decreases when digits are appended
+// (a fact of arithmetic that is not re-proved here).
+
+//@ spec isdigit(c int) bool = 48 <= c && c <= 57
+//@ spec alldigits(b []byte, n int) bool = forall j in [0,n): isdigit(b[j])
+//@ spec decval(b []byte, n int) int = n <= 0 ? 0 : decval(b, n-1)*10 + (b[n-1] - 48)
+//@ spec pow10(i int) int = i <= 0 ? 1 : i == 1 ? 10 : i == 2 ? 100 : i == 3 ? 1000 : i == 4 ? 10000 : i == 5 ? 100000 :
+//@     i == 6 ? 1000000 : i == 7 ? 10000000 : i == 8 ? 100000000 : i == 9 ? 1000000000 : i == 10 ? 10000000000 :
+//@     i == 11 ? 100000000000 : i == 12 ? 1000000000000 : i == 13 ? 10000000000000 : i == 14 ? 100000000000000 :
+//@     i == 15 ? 1000000000000000 : i == 16 ? 10000000000000000 : i == 17 ? 100000000000000000 : 1000000000000000000
+
+//@ func parseUintBuf results v n err
+//@   property C30
+//@   mode wrap
+//@   intsize 64 32
+//@   ensures[exact]     err == nil ==> 0 < n && n <= len(b) && alldigits(b, n) && v == decval(b, n) && 0 <= v
+//@   ensures[maximal]   err == nil ==> n == len(b) || !isdigit(b[n])
+//@   ensures[overflow]  err == errTooLongInt ==> n < len(b) && alldigits(b, n+1) && decval(b, n+1) > MaxInt
+//@   ensures[errval]    err != nil ==> v == -1
+//@   ensures[errkinds]  err == nil || err == errEmptyInt || err == errUnexpectedFirstChar || err == errTooLongInt
+//@   ensures[empty]     (err == errEmptyInt) == (len(b) == 0)
+//@   ensures[firstchar] (err == errUnexpectedFirstChar) == (len(b) > 0 && !isdigit(b[0]))
+//@   loop 1:
+//@     invariant[digits] alldigits(b, i)
+//@     invariant[value]  v == decval(b, i) && 0 <= v
+//@     invariant[small]  i <= maxSafeIntDigits ==> v < pow10(i)
+
+//@ func ParseUint results v err
+//@   property C30 C24
+//@   intsize 64 32
+//@   ensures[exact]    err == nil ==> len(buf) > 0 && alldigits(buf, len(buf)) && v == decval(buf, len(buf)) && 0 <= v
+//@   ensures[complete] err != nil ==> len(buf) == 0 || !alldigits(buf, len(buf)) ||
+//@                       exists m in [1,len(buf)]: decval(buf, m) > MaxInt
+//@   ensures[errval]   err != nil ==> v == -1
